@@ -34,7 +34,7 @@ from common import coqrun, enc
 
 ID = "C06"
 PROP_FILE = "props/C06.v"
-MODEL_TARGETS = ["theories/Timesync.vo"]
+MODEL_TARGETS = ["theories/Timesync.vo", "theories/Tables_C06.vo"]
 THEOREMS = ["C06_duration", "C06_end_fixed", "C06_positive", "C06_scale", "C06_host_unchanged", "C06_no_error",
             "C06_domain_exact", "C06_stream", "C06_slice_ok_unfold", "C06_canonical_names", "C06_flex_table_agrees"]
 ALLOWED_AXIOMS = []
